@@ -474,6 +474,25 @@ class C08(common.Prop):
                 case["_f64"] = rec
             except Exception:
                 case["_f64"] = None
+        # the same body object used twice with its data RE-ASSIGNED in between (what normalize / normalize_distribution / `data * s`
+        # do): select points, replace body.data by data + 1, select again - the second selection sees the new data on every
+        # backend (nothing derived from the old array may survive on the object)
+        case["_rebind"] = None
+        if all(b is not None for b in bodies) and int(np.prod(case["shape"])) > 0:
+            rec = {}
+            for i, kind in enumerate(BACKENDS):
+                try:
+                    b2 = bodies[i].copy()
+                    T_ = int(b2.data.shape[2])
+                    idx = list(range(T_))[::-1]
+                    b2.get_points(idx[:1])
+                    before = dump_body(b2.get_points(idx), kind)
+                    b2.data = b2.data + (np.float32(1.0) if kind == "numpy" else 1.0)      # (a Python float would widen a NumPy float32 array)
+                    after = dump_body(b2.get_points(idx), kind)
+                    rec[kind] = ["ok", before, after]
+                except Exception as e:
+                    rec[kind] = ["err", type(e).__name__]
+            case["_rebind"] = rec
         for j, op in enumerate(case["ops"]):
             for i, kind in enumerate(BACKENDS):
                 if bodies[i] is None:
@@ -759,6 +778,26 @@ class C08(common.Prop):
                 return {"what": "NumPy body written to in place, then .%s(): %s" % (kind, "raises " + rec[1] if rec[0] != "ok" else
                         "the converted body's missing pattern is not `confidence == 0`" if not rec[1] else "confidences differ"),
                         "stage": "convert-after-edit", "backend": kind, "D": D, "odd_conf": odd_conf}
+        rb = case.get("_rebind") or {}
+        if rb.get("numpy", ["err"])[0] == "ok":
+            ref_after = rb["numpy"][2]
+            for kind, rec in rb.items():
+                if kind == "numpy" or (skip_tf and kind == "tensorflow"):
+                    continue
+                if rec[0] != "ok":
+                    return {"what": "select points, re-assign body.data, select again: the %s body raises %s where NumPy does not" % (kind, rec[1]),
+                            "stage": "rebind-then-select", "backend": kind, "D": D, "odd_conf": odd_conf}
+                a, b = rec[2], ref_after
+                d = None
+                if a.get("shape") != b.get("shape") or a.get("valid") != b.get("valid") or a.get("conf") != b.get("conf"):
+                    d = "shape / missing pattern / confidences differ"
+                elif isinstance(a.get("val"), list) and isinstance(b.get("val"), list) and a.get("valid") and len(a["val"]) == len(b["val"]) == len(a["valid"][1]):
+                    bad = [i for i, (p_, q_, v_) in enumerate(zip(a["val"], b["val"], a["valid"][1])) if v_ and p_ != q_ and f32(p_) != f32(q_)]
+                    if bad:
+                        d = "observed coordinates differ at cell %d (%r vs %r)" % (bad[0], f32(a["val"][bad[0]]), f32(b["val"][bad[0]]))
+                if d:
+                    return {"what": "select points, re-assign body.data (data + 1), select again - %s vs NumPy: %s" % (kind, d),
+                            "stage": "rebind-then-select", "backend": kind, "D": D, "odd_conf": odd_conf}
         for kind, rec in (case.get("_f64") or {}).items():
             if rec[0] != "ok" or not (rec[2] and rec[3] and rec[4]):
                 return {"what": "binary64 NumPy body .%s(): %s" % (kind, "raises " + rec[1] if rec[0] != "ok" else
@@ -823,7 +862,7 @@ class C08(common.Prop):
             if bk in ("torch", "tensorflow") and failure.get("odd_conf") and "valid differs" in what:
                 return "validity-rule-negative-or-nan-confidence"
             return "%s-%s" % (st, bk)
-        if st in ("convert-after-edit", "convert-float64"):
+        if st in ("convert-after-edit", "convert-float64", "rebind-then-select"):
             return "%s-%s" % (st, bk)
         op = failure.get("op")
         if failure.get("edge"):
